@@ -115,6 +115,13 @@ func (r *TaskRunner) Run(t *task.Task) error {
 		return err
 	}
 
+	// once per task execution; contextForTask is also used by the condition
+	// and by the task's own before/after hooks
+	err = execContext.Before()
+	if err != nil {
+		return err
+	}
+
 	outputFormat := r.OutputFormat
 
 	var stdin io.Reader
@@ -295,11 +302,6 @@ func (r *TaskRunner) contextForTask(t *task.Task) (c *ExecutionContext, err erro
 	}
 
 	err = c.Up()
-	if err != nil {
-		return nil, err
-	}
-
-	err = c.Before()
 	if err != nil {
 		return nil, err
 	}
